@@ -15,6 +15,13 @@ standard's result needs plus `slack` — filled with -1,-2,.., then one context 
 run with the window `[dp, dp+room)`, so a write outside it is `oob`.  For unique_copy `it=in|fwd` means a
 pure output iterator (value-copy branch), `it=ptr|bidi` a pointer destination (read-back branch).
 The needle of search / find_end / find_first_of is the range `[g,h)` of `b` (default: all of `b`).
+
+`it=in1` (a genuinely single-pass input iterator in the harness) runs the single-pass models of
+Model/SinglePass.lean where one exists (find family, count, for_each(_n), is_partitioned, mismatch, equal,
+lexicographical_compare, includes, accumulate/reduce, inner_product): a model that used a stale iterator copy
+would print `pre(multipass)`.  `ty=sc|uc|c|sh|b` (arithmetic element types through raw pointers): the elements ARE the
+keys (no tags), `cmp=dflt|less` is `<` on the values, `eq` is `==`; with `ce=1` the model column repeats its result as
+` ce=…` (the harness appends what the compiler computed for the same call in a constant expression).
 -/
 import Tetl.Proto
 import Tetl.C06.Model
@@ -24,14 +31,16 @@ open Tetl Tetl.Proto
 
 abbrev E := Int
 def key (e : E) : Int := e / 100
-def cmpOf (s : String) : E → E → Bool :=
-  if s == "greater" then fun x y => key x > key y
-  else if s == "mod3" then fun x y => key x % 3 < key y % 3
-  else fun x y => key x < key y
+/-- `raw` (arithmetic element types, `ty=`): the element is its own key -/
+def keyOf (raw : Bool) (e : E) : Int := if raw then e else key e
+def cmpOf (s : String) (raw : Bool := false) : E → E → Bool :=
+  if s == "greater" then fun x y => keyOf raw x > keyOf raw y
+  else if s == "mod3" then fun x y => keyOf raw x % 3 < keyOf raw y % 3
+  else fun x y => keyOf raw x < keyOf raw y
 /-- class of an element under the comparator's equivalence -/
 def clsOf (s : String) (e : E) : Int := if s == "mod3" then key e % 3 else key e
-def eqOf (s : String) : E → E → Bool :=
-  if s == "eqmod" then fun x y => key x % 2 == key y % 2 else fun x y => key x == key y
+def eqOf (s : String) (raw : Bool := false) : E → E → Bool :=
+  if s == "eqmod" then fun x y => keyOf raw x % 2 == keyOf raw y % 2 else fun x y => keyOf raw x == keyOf raw y
 def predOf (mask : Nat) (e : E) : Bool := (mask >>> (key e).toNat) % 2 == 1
 
 def fmtE {α : Type} (g : α → String) : Except Err α → String
@@ -68,6 +77,8 @@ structure Args where
   slack : Nat
   g : Nat
   h : Nat
+  ty : String
+  ce : Bool
 
 def getArgs (ln : Line) : Args :=
   let a := (ln.list? "a").getD []
@@ -77,7 +88,8 @@ def getArgs (ln : Line) : Args :=
     eq := (ln.str? "eq").getD "dflt", it := (ln.str? "it").getD "ptr", ov := (match ln.get? "ov" with | some (.int i) => toString i | some (.str s) => s | _ => ""),
     op := (ln.str? "op").getD "dflt", init := (ln.int? "init").getD 0,
     dp := (ln.nat? "dp").getD 0, slack := (ln.nat? "slack").getD 0,
-    g := (ln.nat? "g").getD 0, h := (ln.nat? "h").getD ((ln.list? "b").getD []).length }
+    g := (ln.nat? "g").getD 0, h := (ln.nat? "h").getD ((ln.list? "b").getD []).length,
+    ty := (ln.str? "ty").getD "", ce := (ln.nat? "ce").getD 0 != 0 }
 
 /-- canonical form of an unstable sort result: classes in order, the elements as a multiset, the context -/
 def canonSort (cmp : String) (a : List E) (f l : Nat) : String :=
@@ -105,14 +117,67 @@ def fmtOut (r : List E × Nat) : String := s!"r={r.2} d={fmtList r.1}"
 def numOp (s : String) : Int → Int → Int :=
   if s == "minus" then fun x y => x - y else if s == "mul2" then fun x y => 2 * x + y else fun x y => x + y
 
+/-- arithmetic element types (`ty=`): the same models and specs with the element as its own key -/
+def stepArith (g : Args) (ln : Line) : Unit × String :=
+  let bad := ((), "bad-op\tbad-op")
+  let a := g.a; let f := g.f; let l := g.l; let b := g.b; let h := b.length
+  let R := slice a f l
+  let lt := cmpOf g.cmp true; let eqf := eqOf g.eq true
+  -- model column: result (+ ` ce=` the same result once more when ce=1); spec column: result
+  let out (m : Except Err String) (ce : Except Err String) (s : String) (sce : String) : Unit × String :=
+    let mm := match m, ce with
+      | .ok x, .ok c => if g.ce then x ++ " ce=" ++ c else x
+      | .error e, _ => e.fmt
+      | _, .error e => e.fmt
+    ((), mm ++ "\t" ++ (if g.ce then s ++ " ce=" ++ sce else s))
+  let idx (m : Except Err Nat) (s : Nat) := out (m.map fmtIdx) (m.map toString) (fmtIdx (f + s)) (toString (f + s))
+  let boo (m : Except Err Bool) (s : Bool) := out (m.map fmtB) (m.map fmtBool) (fmtB s) (fmtBool s)
+  let srt (m : Except Err (List E)) :=
+    out (m.map fun x => "a=" ++ fmtList x) (m.map fun x => fmtList (slice x f l)) ("a=" ++ fmtList (splice a f l (Spec.stableSort lt R)))
+      (fmtList (Spec.stableSort lt R))
+  match ln.op with
+  | "lexicographical_compare" => boo (lexicographicalCompare lt a f l b 0 h) (Spec.lexLt lt R b)
+  | "equal" =>
+    if g.ov == "4" then boo (equal4RA eqf a f l b 0 h) (Spec.equal eqf R b)
+    else boo (equal3 eqf a f l b 0 h) (Spec.equal eqf R (b.take R.length))
+  | "mismatch" =>
+    let m := mismatch4 eqf a f l b 0 h
+    let s := Spec.mismatch eqf R b
+    out (m.map fun r => s!"r={r.1},{r.2}") (m.map fun r => toString r.1) s!"r={f + s},{s}" (toString (f + s))
+  | "search" => idx (searchB eqf a f l b 0 h) (Spec.search eqf R b)
+  | "find_end" => idx (findEndB eqf a f l b 0 h) (Spec.findEnd eqf R b)
+  | "includes" => boo (includes lt a f l b 0 h) (Spec.includes lt R b)
+  | "is_permutation" => boo (isPermutation4 eqf a f l b 0 h) (Spec.isPermutation eqf R b)
+  | "min_element" => idx (minElement lt a f l) (Spec.minElement lt R)
+  | "max_element" => idx (maxElement lt a f l) (Spec.maxElement lt R)
+  | "minmax_element" =>
+    let m := minmaxElement lt a f l
+    out (m.map fun r => s!"r={r.1},{r.2}") (m.map fun r => toString r.1) s!"r={f + Spec.minElement lt R},{f + Spec.maxElementLast lt R}" ""
+  | "is_sorted_until" => idx (isSortedUntil lt a f l) (Spec.isSortedUntil lt R)
+  | "find" => idx (find eqf g.v a f l) (Spec.findIdx (fun x => eqf x g.v) R)
+  | "count" =>
+    let m := count eqf g.v a f l
+    out (m.map fmtIdx) (m.map toString) (fmtIdx (Spec.count (fun x => eqf x g.v) R)) (toString (Spec.count (fun x => eqf x g.v) R))
+  | "lower_bound" => idx (lowerBound lt g.v a f l) (Spec.lowerBound lt g.v R)
+  | "upper_bound" => idx (upperBound lt g.v a f l) (Spec.upperBound lt g.v R)
+  | "sort" | "gnome_sort" => srt (gnomeSort lt a f l)
+  | "bubble_sort" => srt (bubbleSort lt a f l)
+  | "exchange_sort" => srt (exchangeSort lt a f l)
+  | "stable_sort" | "insertion_sort" => srt (insertionSort lt a f l)
+  | "merge_sort" => srt (mergeSort lt a f l)
+  | _ => bad
+
 def step (_ : Unit) (ln : Line) : Unit × String :=
+
   let bad := ((), "bad-op\tbad-op")
   let out (m s : String) := ((), m ++ "\t" ++ s)
   let g := getArgs ln
   let a := g.a; let f := g.f; let l := g.l; let b := g.b; let h := b.length
   if !(f ≤ l && l ≤ a.length) then bad else
+  if g.ty != "" then stepArith g ln else
   let R := slice a f l
   let lt := cmpOf g.cmp; let eqf := eqOf g.eq; let p := predOf g.p
+  let sp := g.it == "in1"   -- genuinely single-pass input iterator: the single-pass models
   let idx (m : Except Err Nat) (s : Nat) := out (fmtE fmtIdx m) (fmtIdx (f + s))
   let boo (m : Except Err Bool) (s : Bool) := out (fmtE fmtB m) (fmtB s)
   let lst (m : Except Err (List E)) (s : List E) := out (fmtE fmtList m) (fmtList s)
@@ -124,22 +189,22 @@ def step (_ : Unit) (ln : Line) : Unit × String :=
     out (fmtE fmtOut (run D g.dp (g.dp + room))) (fmtOut (splice D g.dp (g.dp + s.length) s, g.dp + s.length))
   let outPtr := g.it == "ptr" || g.it == "bidi"
   match ln.op with
-  | "find" => idx (find eqf g.v a f l) (Spec.findIdx (fun x => eqf x g.v) R)
-  | "find_if" => idx (findIf p a f l) (Spec.findIdx p R)
-  | "find_if_not" => idx (findIfNot p a f l) (Spec.findIdx (fun x => !p x) R)
-  | "all_of" => boo (allOf p a f l) (R.all p)
-  | "any_of" => boo (anyOf p a f l) (R.any p)
-  | "none_of" => boo (noneOf p a f l) (!R.any p)
-  | "count" => out (fmtE fmtIdx (count eqf g.v a f l)) (fmtIdx (Spec.count (fun x => eqf x g.v) R))
-  | "count_if" => out (fmtE fmtIdx (countIf p a f l)) (fmtIdx (Spec.count p R))
-  | "for_each" => out (fmtE (fun (x : List E) => s!"{fmtList x} fn={x.length}") (forEach a f l)) s!"{fmtList R} fn={R.length}"
+  | "find" => idx (if sp then SP.findS eqf g.v a f l else find eqf g.v a f l) (Spec.findIdx (fun x => eqf x g.v) R)
+  | "find_if" => idx (if sp then SP.findIfS p a f l else findIf p a f l) (Spec.findIdx p R)
+  | "find_if_not" => idx (if sp then SP.findIfNotS p a f l else findIfNot p a f l) (Spec.findIdx (fun x => !p x) R)
+  | "all_of" => boo (if sp then SP.allOfS p a f l else allOf p a f l) (R.all p)
+  | "any_of" => boo (if sp then SP.anyOfS p a f l else anyOf p a f l) (R.any p)
+  | "none_of" => boo (if sp then SP.noneOfS p a f l else noneOf p a f l) (!R.any p)
+  | "count" => out (fmtE fmtIdx (if sp then SP.countS eqf g.v a f l else count eqf g.v a f l)) (fmtIdx (Spec.count (fun x => eqf x g.v) R))
+  | "count_if" => out (fmtE fmtIdx (if sp then SP.countIfS p a f l else countIf p a f l)) (fmtIdx (Spec.count p R))
+  | "for_each" => out (fmtE (fun (x : List E) => s!"{fmtList x} fn={x.length}") (if sp then SP.forEachS a f l else forEach a f l)) s!"{fmtList R} fn={R.length}"
   | "for_each_n" =>
-    out (fmtE (fun (r : Nat × List E) => s!"r={r.1} v={fmtList r.2}") (forEachN a f l g.n))
+    out (fmtE (fun (r : Nat × List E) => s!"r={r.1} v={fmtList r.2}") (if sp then SP.forEachNS a f l g.n else forEachN a f l g.n))
       s!"r={f + g.n.toNat} v={fmtList (R.take g.n.toNat)}"
   | "adjacent_find" => idx (adjacentFind eqf a f l) (Spec.adjacentFind eqf R)
   | "is_sorted" => boo (isSorted lt a f l) (Spec.isSortedUntil lt R == R.length)
   | "is_sorted_until" => idx (isSortedUntil lt a f l) (Spec.isSortedUntil lt R)
-  | "is_partitioned" => boo (isPartitioned p a f l) (Spec.isPartitioned p R)
+  | "is_partitioned" => boo (if sp then SP.isPartitionedS p a f l else isPartitioned p a f l) (Spec.isPartitioned p R)
   | "partition_point" => idx (partitionPoint p a f l) (Spec.partitionPoint p R)
   | "min_element" => idx (minElement lt a f l) (Spec.minElement lt R)
   | "max_element" => idx (maxElement lt a f l) (Spec.maxElement lt R)
@@ -166,18 +231,19 @@ def step (_ : Unit) (ln : Line) : Unit × String :=
   | "search_n" => idx (searchN eqf a f l g.n g.v) (Spec.searchN eqf R g.n g.v)
   | "find_first_of" => if !(g.g ≤ g.h && g.h ≤ h) then bad else idx (findFirstOfB eqf a f l b g.g g.h) (Spec.findFirstOf eqf R (slice b g.g g.h))
   | "mismatch" =>
-    let m := if g.ov == "4" then mismatch4 eqf a f l b 0 h else mismatch3 eqf a f l b 0 h
+    let m := if sp then (if g.ov == "4" then SP.mismatch4S eqf a f l b 0 h else SP.mismatch3S eqf a f l b 0 h)
+      else if g.ov == "4" then mismatch4 eqf a f l b 0 h else mismatch3 eqf a f l b 0 h
     let s := Spec.mismatch eqf R b
     out (fmtE (fun (r : Nat × Nat) => s!"r={r.1},{r.2}") m) s!"r={f + s},{s}"
   | "equal" =>
     if g.ov == "4" then
-      boo (if g.it == "ptr" then equal4RA eqf a f l b 0 h else equal4Fwd eqf a f l b 0 h) (Spec.equal eqf R b)
-    else boo (equal3 eqf a f l b 0 h) (Spec.equal eqf R (b.take R.length))
-  | "lexicographical_compare" => boo (lexicographicalCompare lt a f l b 0 h) (Spec.lexLt lt R b)
+      boo (if g.it == "ptr" then equal4RA eqf a f l b 0 h else if sp then SP.equal4S eqf a f l b 0 h else equal4Fwd eqf a f l b 0 h) (Spec.equal eqf R b)
+    else boo (if sp then SP.equal3S eqf a f l b 0 h else equal3 eqf a f l b 0 h) (Spec.equal eqf R (b.take R.length))
+  | "lexicographical_compare" => boo (if sp then SP.lexicographicalCompareS lt a f l b 0 h else lexicographicalCompare lt a f l b 0 h) (Spec.lexLt lt R b)
   | "is_permutation" =>
     if g.ov == "4" then boo (isPermutation4 eqf a f l b 0 h) (Spec.isPermutation eqf R b)
     else boo (isPermutation3 eqf a f l b 0 h) (Spec.isPermutation eqf R (b.take R.length))
-  | "includes" => boo (includes lt a f l b 0 h) (Spec.includes lt R b)
+  | "includes" => boo (if sp then SP.includesS lt a f l b 0 h else includes lt a f l b 0 h) (Spec.includes lt R b)
   -- modifying, in place
   | "rotate" =>
     let s := Spec.rotate R (g.m - f)
@@ -185,18 +251,22 @@ def step (_ : Unit) (ln : Line) : Unit × String :=
       s!"r={f + s.2} a={fmtList (splice a f l s.1)}"
   | "reverse" =>
     if g.it == "rptr" then
-      -- the range seen through reverse_iterators: the random-access loop runs on the mirrored sequence
-      let n := a.length
-      arr ((reverseRA a.reverse (n - l) (n - f)).map List.reverse) R.reverse
+      -- the range seen through reverse_iterators: the random-access loop runs on the mirrored sequence (Props.reverseRev_eq)
+      arr (RevIt.reverseRev a f l) R.reverse
     else arr (if g.it == "ptr" then reverseRA a f l else reverseBidi a f l) R.reverse
   | "rit_rel" =>
-    -- reverse_iterator relations over base positions i, j ([reverse.iter.cmp]): x < y iff x.base() > y.base()
+    -- reverse_iterator relations over base positions i, j ([reverse.iter.cmp]): model = the relations of the header on the
+    -- bases (RevIt), spec = the order of the designated positions n-i, n-j of the reversed sequence (Props.reverseIterator_relations)
     match ln.nat? "i", ln.nat? "j" with
     | some i, some j =>
       let b := fun (c : Bool) => if c then "1" else "0"
-      let r := b (i == j) ++ b (i != j) ++ b (decide (i > j)) ++ b (decide (i ≥ j)) ++ b (decide (i < j)) ++ b (decide (i ≤ j))
-        ++ s!" d={(i : Int) - (j : Int)}"
-      out r r
+      let n := a.length
+      let pi := RevIt.pos n i; let pj := RevIt.pos n j
+      let m := b (RevIt.eq i j) ++ b (RevIt.ne i j) ++ b (RevIt.lt i j) ++ b (RevIt.le i j) ++ b (RevIt.gt i j) ++ b (RevIt.ge i j)
+        ++ s!" d={RevIt.diff i j}"
+      let sp := b (pi == pj) ++ b (pi != pj) ++ b (decide (pi < pj)) ++ b (decide (pi ≤ pj)) ++ b (decide (pi > pj)) ++ b (decide (pi ≥ pj))
+        ++ s!" d={(pj : Int) - (pi : Int)}"
+      if i ≤ n && j ≤ n then out m sp else bad
     | _, _ => bad
   | "swap_ranges" =>
     let n := l - f
@@ -293,11 +363,11 @@ def step (_ : Unit) (ln : Line) : Unit × String :=
   | "set_union" => dst (Out.setUnion lt a f l b 0 h) (Spec.setUnion lt R b)
   -- numeric
   | "accumulate" | "reduce" =>
-    out (fmtE (fun (r : Int) => s!"r={r}") (accumulate (numOp g.op) g.init a f l)) s!"r={Spec.accumulate (numOp g.op) g.init R}"
+    out (fmtE (fun (r : Int) => s!"r={r}") (if sp then SP.accumulateS (numOp g.op) g.init a f l else accumulate (numOp g.op) g.init a f l)) s!"r={Spec.accumulate (numOp g.op) g.init R}"
   | "inner_product" | "transform_reduce" =>
     let op1 := numOp g.op
     let op2 : Int → Int → Int := if g.op == "dflt" then fun x y => x * y else fun x y => x - 2 * y
-    out (fmtE (fun (r : Int) => s!"r={r}") (innerProduct op1 op2 g.init a f l b 0 h)) s!"r={Spec.innerProduct op1 op2 g.init R b}"
+    out (fmtE (fun (r : Int) => s!"r={r}") (if sp then SP.innerProductS op1 op2 g.init a f l b 0 h else innerProduct op1 op2 g.init a f l b 0 h)) s!"r={Spec.innerProduct op1 op2 g.init R b}"
   | "transform_reduce1" =>
     out (fmtE (fun (r : Int) => s!"r={r}") (transformReduce1 (numOp g.op) (fun x => 3 * x + 1) g.init a f l))
       s!"r={Spec.accumulate (numOp g.op) g.init (R.map (fun x => 3 * x + 1))}"
